@@ -96,6 +96,7 @@ def case_observe(spec):
         configs.append(dict(save_every=k, output=["file", "temp"][i % 2], probes=bool(i % 2 == 0), progress_interval=[10**9, 0, 5][i % 3]))
     configs.append(dict(save_every=base["save_every"], output="temp", probes=False, progress_interval=0))
     configs.append(dict(save_every=base["save_every"], output="file", probes=True, progress_interval=5))
+    configs.insert(1, dict(save_every=base["save_every"], output="file", probes=True, progress_interval=10**9, occupied=True))
     if spec.get("nconfigs", 8) < len(configs):
         configs = configs[:2] + configs[-(spec["nconfigs"] - 2):]
     V, C = [], {"configurations_compared": 0, "common_frame_comparisons": 0, "update_sequence_comparisons": 0}
@@ -104,7 +105,22 @@ def case_observe(spec):
         sp = copy.deepcopy(spec)
         sp["options"].update(save_every=cfg["save_every"], output=cfg["output"], progress_interval=cfg["progress_interval"])
         tm2 = simmon.TraceMonitor()
-        rr2 = sim.run_sim(sp, [tm2], device=dev if cfg["probes"] else dev_noprobe)
+        workdir = None
+        if cfg.get("occupied"):
+            # the requested output path already holds the result of an earlier, different simulation
+            import tempfile
+
+            workdir = tempfile.mkdtemp(prefix="vt_c11_")
+            other = copy.deepcopy(spec)
+            other["options"].update(save_every=3, output="file")
+            other["options"]["solve_time"] = 0.5 * other["options"]["solve_time"]
+            if "auto_dt" in other["options"]:
+                other["options"]["auto_dt"] = dict(other["options"]["auto_dt"], steps=max(3, other["options"]["auto_dt"]["steps"] // 2))
+            other["drive"] = {"A": {"kind": "zero"}}
+            r0 = sim.run_sim(other, [], device=dev, workdir=workdir, keep_dir=True)
+            if r0.exception is not None:
+                return {"status": "harness_error", "error": "occupying run failed: " + repr(r0.exception)[:200]}
+        rr2 = sim.run_sim(sp, [tm2], device=dev if cfg["probes"] else dev_noprobe, workdir=workdir)
         if rr2.exception is not None:
             V.append({"kind": "configuration_changes_outcome", "mechanism": "recording_configuration_changes_outcome", "detail": {"config": cfg, "raised": repr(rr2.exception)[:200]}})
             rr2.cleanup()
@@ -172,8 +188,12 @@ def case_resume(spec):
             return {"status": "harness_error", "error": "first part failed: " + repr(rr1.exception)[:300]}
         # continue from the saved final state, loaded from disk as a user would
         seed = tdgl.Solution.from_hdf5(rr1.output_path)
+        seed_before = {f: simmon.h(np.asarray(getattr(seed.tdgl_data, f))) for f in ("psi", "mu", "supercurrent", "normal_current", "induced_vector_potential")}
         rr2, tm2 = run(N - N1, seed_solution=seed)
         C["resume_splits"] += 1
+        seed_after = {f: simmon.h(np.asarray(getattr(seed.tdgl_data, f))) for f in seed_before}
+        if seed_after != seed_before:
+            V.append({"kind": "seed_solution_mutated_by_run", "mechanism": "seed_solution_mutated", "detail": {"N": N, "N1": N1, "fields": [f for f in seed_before if seed_before[f] != seed_after[f]]}})
         if rr2.exception is not None:
             V.append({"kind": "resumed_run_raised", "mechanism": "resumed_run_raised", "detail": {"N": N, "N1": N1, "raised": repr(rr2.exception)[:200]}})
         else:
